@@ -18,7 +18,6 @@ EXHAUSTIVE_GENS = ('script',)
 DECIDING_REQUIRED = ('pending_cancels_judged', 'cancel_frames_received_by_producer', 'cancel_before_first_credit',
                      'bystanders_checked')
 BUDGET_S = {'quick': 100, 'thorough': 2400}
-CASE_WALL_LIMIT = {'quick': 60, 'thorough': 300}
 
 SOURCES = ['rec', 'rec', 'gen', 'agen', 'rx4', 'rx4bp', 'rx3', 'rx3bp']
 TERMINALS = ('on_complete', 'on_next_complete', 'on_error')
